@@ -26,23 +26,27 @@ func tarB256(w int, n uint64) []byte {
 	return b
 }
 
-func tarRawHeader(name string, size, uid []byte) []byte {
+type rawTar struct {
+	size, uid, gid, mode, mtime, devmajor, devminor []byte
+}
+
+func tarRawHeader(name string, f rawTar) []byte {
 	var h bytes.Buffer
 	pad := func(s string, w int) { h.WriteString(s); h.Write(make([]byte, w-len(s))) }
 	pad(name, 100)
-	h.Write(tarOct(8, 0o644))
-	h.Write(uid)
-	h.Write(tarOct(8, 0))
-	h.Write(size)
-	h.Write(tarOct(12, 0))
+	h.Write(f.mode)
+	h.Write(f.uid)
+	h.Write(f.gid)
+	h.Write(f.size)
+	h.Write(f.mtime)
 	h.WriteString("        ")
 	h.WriteByte('0')
 	pad("", 100)
 	h.WriteString("ustar\x0000")
 	pad("", 32)
 	pad("", 32)
-	h.Write(tarOct(8, 0))
-	h.Write(tarOct(8, 0))
+	h.Write(f.devmajor)
+	h.Write(f.devminor)
 	pad("", 155)
 	pad("", 12)
 	b := h.Bytes()
@@ -54,43 +58,81 @@ func tarRawHeader(name string, size, uid []byte) []byte {
 	return b
 }
 
-func mdlTarRun(o *hlib.Out, files [][]byte, classes []string) {
+type mdlTar struct {
+	valid int
+	file  []byte
+	truth string
+	class string
+}
+
+func mdlTarRun(o *hlib.Out, cs []mdlTar) {
 	fm := map[string][]byte{}
-	for i, f := range files {
-		fm[fmt.Sprintf("t%05d", i)] = f
+	for i, c := range cs {
+		fm[fmt.Sprintf("t%05d", i)] = c.file
 	}
 	res := decodeBatch("tar", fm)
-	for i, f := range files {
-		ws := strings.Fields(res[fmt.Sprintf("t%05d", i)])
-		obs := "noline"
-		if len(ws) > 0 {
-			obs = ws[0]
+	for i, c := range cs {
+		obs := res[fmt.Sprintf("t%05d", i)]
+		if obs == "" {
+			obs = "noline"
 		}
-		o.Case("mdl tar "+hlib.Hex(f), obs)
-		o.Class(classes[i])
-		o.Stat("mdl_tar_"+obs, 1)
+		o.Case(fmt.Sprintf("mdl tar %d %s %s", c.valid, hlib.Hex(c.file), c.truth), obs)
+		o.Class(c.class)
+		o.Stat("mdl_tar_"+strings.Fields(obs)[0], 1)
 	}
 }
 
 func mdlTarCases(o *hlib.Out, r *hlib.Rand) {
-	var files [][]byte
-	var classes []string
+	var cs []mdlTar
+	epoch := hxs("1970-01-01T00:00:00Z")
 	for i, n := range []int{0, 1, 3, 511, 512, 600} {
 		data := r.Bytes(n)
 		body := append(append([]byte{}, data...), make([]byte, (512-n%512)%512)...)
 		end := make([]byte, 1024)
-		for v := 0; v < 3; v++ {
-			size, uid := tarOct(12, uint64(n)), tarOct(8, 1000)
+		for v := 0; v < 9; v++ {
+			f := rawTar{tarOct(12, uint64(n)), tarOct(8, 1000), tarOct(8, 0), tarOct(8, 0o644), tarOct(12, 0), tarOct(8, 0), tarOct(8, 0)}
+			uid, gid, mode, dmaj, dmin := uint64(1000), uint64(0), uint64(0o644), uint64(0), uint64(0)
+			valid := 1
+			mdesc := epoch
+			mtime := uint64(0)
 			switch v {
-			case 1:
-				size = tarB256(12, uint64(n))
-			case 2:
-				uid = tarB256(8, uint64(3000000+i))
+			case 1: // size in base-256
+				f.size = tarB256(12, uint64(n))
+			case 2: // uid beyond the octal range
+				uid = uint64(3000000 + i)
+				f.uid = tarB256(8, uid)
+			case 3: // every other 8 byte number in base-256, and the size
+				gid, mode, dmaj, dmin = r.U64()>>9, uint64(0o755), r.U64()>>9, uint64(7)
+				f.gid, f.mode, f.devmajor, f.devminor, f.size = tarB256(8, gid), tarB256(8, mode), tarB256(8, dmaj), tarB256(8, dmin), tarB256(12, uint64(n))
+			case 4: // mtime in base-256: fq shows the number without a date description (model comparison only)
+				mtime = uint64(1700000000 + i)
+				f.mtime = tarB256(12, mtime)
+				valid, mdesc = 2, "~"
+			case 5: // size 2^63 + n: not a 63 bit number
+				f.size = tarB256(12, uint64(n))
+				f.size[4] |= 0x80
+				valid = 0
+			case 6: // a non-zero byte above the low eight
+				f.size = tarB256(12, uint64(n))
+				f.size[1+r.Intn(3)] = byte(r.Range(1, 255))
+				valid = 0
+			case 7: // 0xff prefix: negative number
+				f.size = tarB256(12, uint64(n))
+				for k := 0; k < 4; k++ {
+					f.size[k] = 0xff
+				}
+				valid = 0
+			case 8: // first byte 0x80 | 0x40: bits above the low eight bytes
+				f.size = tarB256(12, uint64(n))
+				f.size[0] = 0xc0
+				valid = 0
 			}
-			f := append(append(tarRawHeader("a.txt", size, uid), body...), end...)
-			files = append(files, f)
-			classes = append(classes, fmt.Sprintf("mdltar.n%d.v%d", n, v))
+			file := append(append(tarRawHeader("a.txt", f), body...), end...)
+			truth := strings.Join([]string{kv("n", 1), "F", kv("name", hxs("a.txt")), kv("type", int('0')), kv("link", "~"), kv("mode", mode), kv("uid", uid),
+				kv("gid", gid), kv("mtime", mtime), kv("mdesc", mdesc), kv("devmajor", dmaj), kv("devminor", dmin), kv("uname", "~"), kv("gname", "~"),
+				kv("data", hx(data))}, " ")
+			cs = append(cs, mdlTar{valid, file, truth, fmt.Sprintf("mdltar.n%d.v%d", n, v)})
 		}
 	}
-	mdlTarRun(o, files, classes)
+	mdlTarRun(o, cs)
 }
